@@ -131,15 +131,6 @@ Definition exec_ok (C : circuit) (n : nat) (A : cfg) (s : scratch) : Prop :=
     snd (execute_query (build C n) A s1) = MCA C n A /\
     temps_ok A C (temps (fst (execute_query (build C n) A s1))).
 
-(* the contract, for the stream handed to uniform_random_sampling *)
-Definition urs_choices_okb (d : ddnnf) (A : cfg) (amount : Z) (chs : list choice) (s : scratch) : bool :=
-  match preprocess d A s with
-  | None => true
-  | Some s1 =>
-    let '(s2, r) := execute_query d A s1 in
-    if 0 <? r then choices_okb d (temps s2) (length (circ d)) amount (rootn d) chs else true
-  end.
-
 Lemma root_not_true C n : WF C n -> (0 < n)%nat -> nth (root C) C FalseN <> TrueN.
 Proof.
   intros HWF Hn E. pose proof (complete_range C n (wf_complete C n HWF)) as HV.
